@@ -466,13 +466,28 @@ func init() {
 			}
 			return edges[i].Caller < edges[j].Caller
 		})
-		// the functions of the closure: id, exported?, receiver type
-		var fnRows []string
+		// the functions of the closure: id, exported?, receiver type — and the same tables with indices
+		// instead of names (the analysis in Lean runs on the indices; a consistency lemma ties them to the names)
+		var fnRows, fnRowsN []string
 		var ids []string
 		for id := range interesting {
 			ids = append(ids, id)
 		}
 		sort.Strings(ids)
+		fnIdx := map[string]int{}
+		typeIdx := map[string]int{}
+		var recvTypes []string
+		for i, id := range ids {
+			fnIdx[id] = i
+			f := funcs[id]
+			if f.recv != "" {
+				rt := f.pkg + ":" + f.recv
+				if _, ok := typeIdx[rt]; !ok {
+					typeIdx[rt] = len(recvTypes)
+					recvTypes = append(recvTypes, rt)
+				}
+			}
+		}
 		for _, id := range ids {
 			f := funcs[id]
 			ex := "false"
@@ -480,10 +495,25 @@ func init() {
 				ex = "true"
 			}
 			rt := ""
+			rtN := 0
 			if f.recv != "" {
 				rt = f.pkg + ":" + f.recv
+				rtN = typeIdx[rt] + 1
 			}
 			fnRows = append(fnRows, fmt.Sprintf("(%s, %s, %s)", leanStr(id), ex, leanStr(rt)))
+			fnRowsN = append(fnRowsN, fmt.Sprintf("(%s, %d)", ex, rtN))
+		}
+		var edgeRowsN []string
+		for _, e := range edges {
+			if strings.HasPrefix(e.Callee, "new:") {
+				edgeRowsN = append(edgeRowsN, fmt.Sprintf("(%d, true, %d)", fnIdx[e.Caller], typeIdx[strings.TrimPrefix(e.Callee, "new:")]))
+			} else {
+				edgeRowsN = append(edgeRowsN, fmt.Sprintf("(%d, false, %d)", fnIdx[e.Caller], fnIdx[e.Callee]))
+			}
+		}
+		var siteFuncs []string
+		for _, st := range sites {
+			siteFuncs = append(siteFuncs, fmt.Sprint(fnIdx[st.Func]))
 		}
 		// ---- read-option literals of the engines ----
 		optTypes := map[string]bool{"storage.ReadOptions": true, "storage.ReadUsersetTuplesOptions": true,
@@ -575,6 +605,13 @@ func init() {
 			fmt.Fprintf(&sb, "  (%s, %s, %s, %s)%s\n", leanStr(e.Caller), leanStr(e.Callee), leanStrList(e.Args), csLeanGuards(e.Guards), sep)
 		}
 		sb.WriteString("]\n\n")
+		sb.WriteString("/-- index tables (positions in `funcs` / `recvTypes`), parallel to `funcs`, `edges`, `sites` -/\n")
+		sb.WriteString("def recvTypes : List String := " + leanStrList(recvTypes) + "\n")
+		sb.WriteString("/-- (exported, receiver type index + 1, 0 = plain function) -/\n")
+		sb.WriteString("def funcsN : List (Bool × Nat) := [" + strings.Join(fnRowsN, ", ") + "]\n")
+		sb.WriteString("/-- (caller index, is a construction, callee function index / constructed type index) -/\n")
+		sb.WriteString("def edgesN : List (Nat × Bool × Nat) := [" + strings.Join(edgeRowsN, ", ") + "]\n")
+		sb.WriteString("def siteFuncs : List Nat := [" + strings.Join(siteFuncs, ", ") + "]\n\n")
 		sb.WriteString("/-- calls of CacheController.DetermineInvalidationTime / InvalidateIfNeeded outside the controller: (caller, method, guards) -/\n")
 		sb.WriteString("def triggers : List (String × String × List Guard) := [\n")
 		for i, e := range triggers {
